@@ -69,6 +69,8 @@ func racGen(ts string, tier int) (gen string, ok bool) {
 		return "verifStrategies()", true
 	case "[]Option":
 		return "verifOptionSets()", true
+	case "[]Metadata":
+		return "verifMetadataSets()", true
 	case "jsonList", "jsonArray", "jsonSet", "jsonMultiset":
 		return fmt.Sprintf("verifArrays[%s](%d)", ts, tier), true
 	case "jsonObject":
@@ -77,6 +79,8 @@ func racGen(ts string, tier int) (gen string, ok bool) {
 		return "verifStrings()", true
 	case "jsonString":
 		return "verifConv[string, jsonString](verifStrings())", true
+	case "jsonStringOrInteger":
+		return "verifConv[string, jsonStringOrInteger](verifStrings())", true
 	case "PathKey":
 		return "verifConv[string, PathKey](verifStrings())", true
 	case "int":
@@ -115,6 +119,8 @@ func racClone(ts, x string) string {
 		return "verifCloneNode(" + x + ").(jsonObject)"
 	case "[]Option":
 		return "verifCloneOptions(" + x + ")"
+	case "[]Metadata":
+		return "verifCloneMetadata(" + x + ")"
 	case "Diff":
 		return "verifCloneDiff(" + x + ")"
 	case "DiffElement":
